@@ -63,7 +63,16 @@ func c20Gen(r *Rand, tier string) interface{} {
 	}
 	dirs := []string{"", "en/", "en/sub/", "pl/", "deep/a/b/", "odd.json/", "odd.json/inner/"}
 	for f := 0; f < nf; f++ {
-		file := c20File{Path: fmt.Sprintf("%sf%d.json", dirs[r.Intn(len(dirs))], f), Values: map[string]string{}, Emitter: r.Chance(1, 3)}
+		base := fmt.Sprintf("f%d", f)
+		switch r.Intn(8) {
+		case 0:
+			base = fmt.Sprintf("en.forms%d", f) // several dots
+		case 1:
+			base = fmt.Sprintf(".hidden%d", f) // leading dot
+		case 2:
+			base = fmt.Sprintf("pl_PL.utf8.v%d", f)
+		}
+		file := c20File{Path: dirs[r.Intn(len(dirs))] + base + ".json", Values: map[string]string{}, Emitter: r.Chance(1, 3)}
 		// prefix-free keys: leaves f<f>.k<i> and f<f>.g<i>.x
 		nkeys := r.Intn(5)
 		if r.Chance(1, 5) {
